@@ -344,6 +344,19 @@ func genHttpConv(r *Rand, tier string, emit func(sx.Sx)) {
 			return []byte("hello world")
 		}
 	}
+	// the smallest conversations there are: a header-less HTTP/1.0 request of 18 .. 28 bytes (the
+	// HTTP/2 detection peeks 24 bytes of the client half, 9 of the server half) and a short response
+	for tl := 1; tl <= 11; tl++ {
+		target := "/" + strings.Repeat("p", tl-1)
+		for _, short := range []bool{true, false} {
+			req := sx.L(sx.A("req"), sx.S("GET"), sx.S(target), sx.N(0), sx.L(), sx.A("none"), sx.B(nil))
+			resp := sx.L(sx.A("resp"), sx.N(200), sx.S("OK"), sx.N(0), sx.L(), sx.A("close"), sx.B([]byte("hello")))
+			if short {
+				resp = sx.L(sx.A("resp"), sx.N(200), sx.S(""), sx.N(0), sx.L(), sx.A("close"), sx.B(nil))
+			}
+			emit(sx.L(sx.L(sx.A("ex"), req, resp)))
+		}
+	}
 	for i := 0; i < count; i++ {
 		n := 1 + r.Intn(4)
 		var exs []sx.Sx
@@ -402,6 +415,48 @@ func genHttpStages(r *Rand, tier string, emit func(sx.Sx)) {
 			resp := sx.L(sx.A("resp"), sx.N(200), sx.S("OK"), sx.N(minor), sx.L(), sx.A("cl"), sx.B([]byte("ok")))
 			emit(sx.L(sx.L(sx.A("ex"), req, resp)))
 		}
+	}
+	// well-formed HTTP whose BODIES are not what their headers announce: a gzip response that is not
+	// gzip, a urlencoded form with a bad escape / repeated and empty fields, a multipart body that is
+	// cut short or has no boundary - the HAR conversion of the item must cope
+	h := func(kv ...string) sx.Sx {
+		hs := []sx.Sx{sx.L(sx.S("Host"), sx.S("host.example"))}
+		for i := 0; i+1 < len(kv); i += 2 {
+			hs = append(hs, sx.L(sx.S(kv[i]), sx.S(kv[i+1])))
+		}
+		return sx.L(hs...)
+	}
+	rh := func(kv ...string) sx.Sx {
+		var hs []sx.Sx
+		for i := 0; i+1 < len(kv); i += 2 {
+			hs = append(hs, sx.L(sx.S(kv[i]), sx.S(kv[i+1])))
+		}
+		return sx.L(hs...)
+	}
+	okResp := sx.L(sx.A("resp"), sx.N(200), sx.S("OK"), sx.N(1), sx.L(), sx.A("cl"), sx.B([]byte("ok")))
+	getReq := sx.L(sx.A("req"), sx.S("GET"), sx.S("/x"), sx.N(1), h(), sx.A("none"), sx.B(nil))
+	for _, enc := range []string{"gzip", "deflate", "br", "gzip, deflate", "identity", "x-unknown"} {
+		for _, body := range [][]byte{[]byte("this is not compressed"), {}, {0x1f, 0x8b}, {0x1f, 0x8b, 8, 0, 0, 0, 0, 0, 0, 3, 0xff, 0xff}} {
+			resp := sx.L(sx.A("resp"), sx.N(200), sx.S("OK"), sx.N(1), rh("Content-Encoding", enc, "Content-Type", "text/plain"), sx.A("cl"), sx.B(body))
+			emit(sx.L(sx.L(sx.A("ex"), getReq, resp)))
+		}
+	}
+	for _, form := range []string{"a=%zz", "a=1&a=&b", "tag=&tag=go&user=bob", "=", "&&&", "a=%", "a=b=c", "k=%41%20x+y", strings.Repeat("k=v&", 300)} {
+		req := sx.L(sx.A("req"), sx.S("POST"), sx.S("/form"), sx.N(1), h("Content-Type", "application/x-www-form-urlencoded"), sx.A("cl"), sx.B([]byte(form)))
+		emit(sx.L(sx.L(sx.A("ex"), req, okResp)))
+	}
+	for _, mp := range []struct{ ct, body string }{
+		{"multipart/form-data; boundary=XX", "--XX\r\nContent-Disposition: form-data; name=\"a\"\r\n\r\n1\r\n--XX--\r\n"},
+		{"multipart/form-data; boundary=XX", "--XX\r\nContent-Disposition: form-data; name=\"a\"\r\n\r\n1\r\n"},
+		{"multipart/form-data; boundary=XX", "garbage without any boundary"},
+		{"multipart/form-data", "--XX\r\n\r\n1\r\n--XX--\r\n"},
+		{"multipart/form-data; boundary=", "x"},
+		{"multipart/form-data; boundary=XX", ""},
+		{"multipart/form-data; boundary=XX", "--XX\r\nBroken Header\r\n\r\n1\r\n--XX--\r\n"},
+	} {
+		body, _ := strconvUnquote(mp.body)
+		req := sx.L(sx.A("req"), sx.S("POST"), sx.S("/upload"), sx.N(1), h("Content-Type", mp.ct), sx.A("cl"), sx.B([]byte(body)))
+		emit(sx.L(sx.L(sx.A("ex"), req, okResp)))
 	}
 	genHttpConv(r, tier, emit)
 }
